@@ -58,6 +58,7 @@ func (p *c09) Init(tier string) {
 		idx(false, dr(0, 1)), idx(false, dr(-1, -1)), idx(false, dr(1, -1)), idx(false, dr(-1, 1)), idx(false, dr(0, 2)), idx(false, dr(0, 3)), idx(false, dr(2, 1)), idx(false, dr(1, 5)), idx(false, dr(3, 3)), idx(false, dr(2, 2)),
 		idx(false, dr(0, 2), di(0)), idx(false, de(), dr(0, 1)), idx(false, dr(-1, -1), de()), idx(true, dr(0, 1), de()),
 		pipe(selPipe{"a", ""}), pipe(selPipe{"a", "string"}), pipe(selPipe{"b", "number"}), pipe(selPipe{"a", "bogus"}), pipe(selPipe{"a", ""}, selPipe{"b", ""}), pipe(selPipe{"a", "string"}, selPipe{"b", ""}), pipe(selPipe{"zz", ""}), pipe(selPipe{"b", "string"}),
+		{kind: "bad", key: "[x]"}, {kind: "bad", key: "[(0:1:2)]"}, {kind: "bad", key: "[(begin:x)]"},
 		{kind: "cont"},
 	}
 	for _, i := range []int{0, 1, 3, 4, 6, 7, 9, 10, 14, 15, 17, 20, 21, 22, 26, 27, 29, 32, 33, 36, 37, 40, 41, 42, 43, 48} {
@@ -196,6 +197,14 @@ func (p *c09) checkSel(r *core.CaseResult, steps []selStep) {
 			continue
 		case werr != nil:
 			r.Outcomes = append(r.Outcomes, "error")
+			// an error is an error every time: warm cache, and after use on another document
+			_, err2, pan2 := gq.Reader(mk(), text)
+			gq.Reader(p.docs[(di+3)%len(p.docs)](), text)
+			_, err3, pan3 := gq.Reader(mk(), text)
+			r.Execs += 3
+			if pan2 != "" || pan3 != "" || err2 == nil || err3 == nil {
+				r.Fail(sig("error-only-once"), fmt.Sprintf("selector %q on %s: error on a cold cache (%v), but warm: %v %s, after another document: %v %s", text, p.dnames[di], err, err2, pan2, err3, pan3), cs)
+			}
 			continue
 		}
 		if !selEqual(got, want) {
